@@ -22,6 +22,7 @@ import Restful.Lemmas.Cors
 import Restful.Lemmas.CorsRoutable
 import Restful.Lemmas.StateShape
 import Restful.Lemmas.TieCors
+import Restful.Lemmas.TieImpAllowed
 namespace Restful
 namespace Props
 open Str Cors
@@ -485,3 +486,7 @@ end C09Example
 
 end Props
 end Restful
+
+-- the imperative functions this property's model rests on, tied to their statement-by-statement
+-- translation (tools/goimp, Gen/Imp.lean, regenerated on every run):
+-- also: Restful.TieImp.compute_allowed_methods
